@@ -181,7 +181,8 @@ PROPS = {
             "one update per address, the most recently accepted one": "theorem (full, every reachable state — any history, inputs, RNG and heap tie order): C15H.one_update_per_address_always (step: C15H.one_update_per_address_step; a send is exactly one fill: C15H.send_touches_backlog_by_one_fill); per enqueue: one_update_per_address, enqueue_keeps_other_addresses",
             "each appearance costs exactly one transmission; dropped at zero; at most once per datagram": "theorem (full, any tie order): each_appearance_costs_one_transmission",
             "never omits a pending update that still fits; precedence to more transmissions remaining": "theorem (full): nothing_that_fits_is_omitted, higher_priority_first, priority_order (over the generated Entry::cmp)",
-            "Feed/Announce/TurnUndead/Broadcast consume nothing; no-broadcast application leaves the backlog alone; only successful applications are enqueued": "theorem (full): non_piggybacking_kinds_consume_nothing, no_broadcast_leaves_backlog_untouched, only_successful_applications_are_enqueued",
+            "Feed/Announce/TurnUndead/Broadcast consume nothing; only successful applications are enqueued": "theorem (full): non_piggybacking_kinds_consume_nothing, only_successful_applications_are_enqueued",
+            "applying updates with broadcasting disabled leaves the backlog untouched": "FALSE as stated (open known finding F10): C15H.no_broadcast_full_is_false — a decided witness in the model (a Suspect update about the instance itself in a do_broadcast=false batch makes it gossip the refutation; the pending update loses a transmission), replayed on the real crate on every run (corpus/C15/F10-nobroadcast-self-update.json); what holds is a theorem (partial): C15H.no_broadcast_batch_about_others_partial (a batch naming no member of the own address leaves the backlog exactly as it was, whatever the outcome), C15.no_broadcast_leaves_backlog_untouched (per update)",
             "at most max_transmissions over the whole life of an update": "theorem (full, histories of any length): C15H.transmissions_are_conserved, C15H.at_most_max_transmissions_over_its_life (every write of an address's entry costs it exactly one transmission, only a new update about that address gives any back: Proofs/Lifetime.lean), C15H.each_write_costs_its_entry_one_transmission, and C15H.backlog_changes_only_by_enqueue_and_fill (any public call changes the instance's backlog by such operations only: Proofs/UpdReach.lean); the tie between 'entry written' and the bytes of the datagram is the per-call theorem each_appearance_costs_one_transmission",
         },
         RULE_HIST + "search: accounting oracle replaying every pure-send call against the hooked backlog (remaining transmissions): only pending updates are written, exact decrement, leave at zero, nothing that fits omitted, precedence; tight packet sizes, max_transmissions in {1,2,3,4,255}.",
